@@ -23,7 +23,7 @@
 --     1000 tries while the auxiliary random elements are drawn: a panic site of the real code too) — is proved in
 --     WinterProofs/RefVerifierTotal.lean (`refVerify_never_panics`): after the front end has
 --     passed the decision function reaches none of its index sites (`fold_positions`, `get_query_values`, ...).
-import WinterProofs.C06
+import WinterProofs.C06Parser
 import WinterProofs.Lemmas.C02Decision
 import WinterProofs.Lemmas.C03Bind
 import Winter.Model.RefVerifier
